@@ -58,6 +58,14 @@ def _bin(xs, ys):
             yield ('or', [x, y])
 
 
+def _nested_negations(xs):
+    out = [('not', ('not', x)) for x in xs] + [('not', ('not', ('not', x))) for x in xs]
+    out += [('not', y) for y in _bin([('not', x) for x in xs], xs)]
+    out += [('not', y) for y in _bin(xs, [('not', x) for x in xs])]
+    out += [('not', ('not', y)) for y in _bin(xs, xs)]
+    return out
+
+
 def im_trees(tier):
     n = N_of(tier)
     ks = sorted({-1, 0, 1, 2, 3, n - 1, n, n + 1, n + 2})
@@ -73,6 +81,8 @@ def im_trees(tier):
     out += list(_bin(d1r, rl6))
     out += list(_bin(rl6, d1r))
     out += list(_bin([('not', x) for x in rl6], rl6))
+    # negation below a negation (the interval of `! ! M` is that of M; of `! ( A || ! M )` that of `! A && M`)
+    out += _nested_negations(rl)
     if tier == 'thorough':
         out += [('not', x) for x in _bin(d1r, rl6)]
         out += list(_bin(d1r, d1r))
@@ -100,6 +110,7 @@ def lm_trees(tier):
     out += list(_bin(ll8, d1r))
     out += list(_bin([('not', x) for x in ll8], ll8))
     out += [('not', x) for x in _bin(d1r, ll8)]
+    out += _nested_negations(ll)
     # mixed levels: line-level operators over line-num with an integer-level tree
     rl6 = [('cmp', '<=', 2), ('cmp', '>=', n - 1), ('cmp', '==', 3), ('cmp', '!=', 4), ('cmp', '<', n), ('cmp', '>', 1)]
     imd1 = [('line-num', x) for x in _bin(rl6, rl6)] + [('line-num', ('not', x)) for x in rl6]
